@@ -627,7 +627,13 @@ package system
 //@ func hexUnit(s, at) (res, ok)
 //@   requires at <= len(s)
 //@   ensures ok ==> 0 <= at && at + 4 <= len(s)
+// exactly the four-hex-digit windows inside the string are accepted (so an escape at the very
+// end of a literal decodes like one in the middle)
+//@   ensures ok == (0 <= at && at + 4 <= len(s) && isHexB(s[at]) && isHexB(s[at + 1]) && isHexB(s[at + 2]) && isHexB(s[at + 3]))
 //@   assigns nothing
+//@   loop 1 (k):
+//@     invariant 0 <= at && at + 4 <= len(s)
+//@     invariant forall j int :: 0 <= j && j < k ==> isHexB(s[at + j])
 // C15: a Decimal becomes a FHIR decimal whose text denotes exactly the same value
 //@ func (d Decimal) ToProtoDecimal() (res)
 //@   ensures res != nil && isDecimalLit(res.Value) && decVal(res.Value) == real(d)
@@ -636,3 +642,9 @@ package system
 //@   ensures res != nil && res.Value != nil && decVal(res.Value.Value) == real(q.value)
 //@   ensures q.unit != "" ==> res.Unit != nil && res.Unit.Value == q.unit
 //@   ensures q.unit == "" ==> res.Unit == nil
+//
+// C13: the Boolean spellings (case-insensitive); anything else does not parse
+//@ func ParseBoolean(input) (res, err)
+//@   ensures (err == nil) == (boolTextTrue(lowerS(input)) || boolTextFalse(lowerS(input)))
+//@   ensures err == nil ==> res == boolTextTrue(lowerS(input))
+//@   assigns nothing
